@@ -182,3 +182,14 @@ Theorem single_colour_link_resolves_to_its_target :
     Forall safe target ->
     fold_left step (relpath_comps target tile_dir) (rev tile_dir) = rev target.
 Proof. exact relpath_resolves. Qed.
+
+(* FileCache._single_color_tile_location: the file all single colour tiles of a cache link to is
+   "<cache_dir>/single_color_tiles/<hex colour>.<ext>" - two safe components below the cache directory, for every colour
+   (tuple of bytes) and whatever the layout, dimensions and coordinates of the linking tile are (they are not an input). *)
+Theorem single_colour_file_confined :
+  forall (cwd : list str) (cache_dir : str) (color : list Z) (ext : string),
+    color <> [] -> Forall (fun v => 0 <= v < 256) color -> ~ In 47 (s2z ext) ->
+    safe (flat_map hex2 color ++ 46 :: s2z ext) /\
+    resolve cwd (single_color_location cache_dir color ext) =
+    resolve cwd cache_dir ++ [sct_name; flat_map hex2 color ++ 46 :: s2z ext].
+Proof. exact single_color_location_resolves. Qed.
